@@ -519,6 +519,10 @@ impl Element {
                 element: self.element_name(),
             });
         }
+        if matches!(other.0.read().parent, ElementOrModel::None) {
+            // a deleted element has lost all of its content, a copy of it would be an invalid empty shell
+            return Err(AutosarDataError::ItemDeleted);
+        }
         let model = self.model()?;
         let version = self.min_version()?;
         self.0
@@ -573,6 +577,10 @@ impl Element {
                 parent: self.element_name(),
                 element: self.element_name(),
             });
+        }
+        if matches!(other.0.read().parent, ElementOrModel::None) {
+            // a deleted element has lost all of its content, a copy of it would be an invalid empty shell
+            return Err(AutosarDataError::ItemDeleted);
         }
         let model = self.model()?;
         let version = self.min_version()?;
